@@ -1,6 +1,7 @@
 pub mod c04;
 pub mod c05;
 pub mod c07;
+pub mod c09;
 pub mod c17;
 pub mod c18;
 pub mod c18b;
@@ -13,6 +14,7 @@ pub fn by_id(id: &str) -> Option<Box<dyn Scenario>> {
         "C04" => Some(Box::new(c04::C04)),
         "C05" => Some(Box::new(c05::C05)),
         "C07" => Some(Box::new(c07::C07)),
+        "C09" => Some(Box::new(c09::C09)),
         "C17" => Some(Box::new(c17::C17)),
         "C18" => Some(Box::new(c18::C18)),
         "C19" => Some(Box::new(c19::C19)),
@@ -20,4 +22,4 @@ pub fn by_id(id: &str) -> Option<Box<dyn Scenario>> {
     }
 }
 
-pub const ALL: &[&str] = &["C04", "C05", "C07", "C17", "C18", "C19"];
+pub const ALL: &[&str] = &["C04", "C05", "C07", "C09", "C17", "C18", "C19"];
